@@ -5,6 +5,7 @@ import (
 	"fmt"
 	"reflect"
 	"testing"
+	"time"
 
 	"github.com/veraison/psatoken"
 	"pgregory.net/rapid"
@@ -554,7 +555,7 @@ func fmtI64(p *int64) string {
 
 func TestC09_RoundTrip(t *testing.T) {
 	st := NewStats("C09", "TestC09_RoundTrip", "rapid: (valid) claims-sets of both profiles, and of registered extension profiles of six styles (own codec through the helpers on either base profile, inherited codec without profile claim, inherited codec and OID name, own claim whose Go field name shadows a base field, extension of an extension; own claims absent / zero / non-zero; wire map checked by the independent reader), via setters/literals -> EncodeClaimsToCBOR -> DecodeClaimsFromCBOR: identical getter results and byte-identical re-encoding; (invalid-but-decodable) model-generated invalid tokens encoded by the independent encoder, decoded, re-encoded: encoder error or same getter results. Non-trivial = beyond the canned builder sets (48/64-byte hashes, >=2 components, optional component text, non-ASCII text, negative client id, no-measurements after a decode, invalid-but-decodable); distinct = class vector + route")
-	st.Require = []string{"valid", "invalid-decoded", "P1", "P2", "nomeas-decoded", "extension", "style=ext-p2", "style=ext-p1", "style=inherit-p1", "style=inherit-p2-oid", "style=shadow-p2", "style=nested-p2", "style=lookalike-key-p2", "ext-own-claim-values", "ext-null-claim-decoded", "ext-without-components"}
+	st.Require = []string{"valid", "invalid-decoded", "P1", "P2", "nomeas-decoded", "extension", "style=ext-p2", "style=ext-p1", "style=inherit-p1", "style=inherit-p2-oid", "style=shadow-p2", "style=nested-p2", "style=lookalike-key-p2", "ext-own-claim-values", "ext-null-claim-decoded", "ext-without-components", "ext-rich-types"}
 	defer st.Flush(t)
 	registerMu.Lock()
 	defer registerMu.Unlock()
@@ -567,16 +568,84 @@ func TestC09_RoundTrip(t *testing.T) {
 	if err := psatoken.RegisterProfile(noSwP2Profile{}); err != nil {
 		t.Fatalf("VERIF-INFRA: %v", err)
 	}
+	if err := psatoken.RegisterProfile(richP2Profile{}); err != nil {
+		t.Fatalf("VERIF-INFRA: %v", err)
+	}
+	if err := psatoken.RegisterProfile(freeFormProfile{}); err != nil {
+		t.Fatalf("VERIF-INFRA: %v", err)
+	}
 	rapid.Check(t, func(t *rapid.T) {
 		p := drawProf(t)
 		styleLabel := ""
-		kind := rapid.SampledFrom([]string{"valid-setters", "valid-literal", "valid-decoded", "any-decoded", "any-decoded", "extension", "dup-profile-key", "ext-own-claim-values", "ext-null-claim", "ext-without-components"}).Draw(t, "kind")
+		kind := rapid.SampledFrom([]string{"valid-setters", "valid-literal", "valid-decoded", "any-decoded", "any-decoded", "extension", "dup-profile-key", "ext-own-claim-values", "ext-null-claim", "ext-without-components", "ext-rich-types"}).Draw(t, "kind")
 		var m *MClaims
 		var c psatoken.IClaims
 		var err error
 		valid := true
 		decode := psatoken.DecodeClaimsFromCBOR
 		switch kind {
+		case "ext-rich-types":
+			// a valid claims-set of an extension with a time claim, a
+			// free-form value and a free-form map (nested maps with integer
+			// and text labels, arrays, byte strings): through the codec it
+			// comes back byte-identical
+			m = GenValid(t, P2, true)
+			p = P2
+			b, berr := m.BuildSetters()
+			if berr != nil {
+				t.Fatalf("VERIF-INFRA: %v", berr)
+			}
+			n := richP2Profile{}.GetClaims().(*RichP2Claims)
+			prof, canon := n.Profile, n.CanonicalProfile
+			n.P2Claims = *(b.(*psatoken.P2Claims))
+			n.Profile, n.CanonicalProfile = prof, canon
+			if genBool.Draw(t, "iat") {
+				ts := time.Unix(rapid.Int64Range(0, 1<<33).Draw(t, "iat.s"), 0).UTC()
+				n.IssuedAt = &ts
+			}
+			standalone := genBool.Draw(t, "standalone")
+			frees := []any{nil, uint64(7), "text", []byte{1, 2, 3}, []any{uint64(1), "two", []byte{3}}, map[any]any{uint64(1): "int label"}, map[any]any{"t": uint64(2)}, map[any]any{int64(-1): map[any]any{uint64(5): []any{}}}, true}
+			// (maps with ONE entry per level: Go map order would make the
+			// encoding of larger free-form maps vary by itself)
+			n.Free = frees[rapid.IntRange(0, len(frees)-1).Draw(t, "free")]
+			switch rapid.IntRange(0, 3).Draw(t, "submods") {
+			case 1:
+				n.Submods = map[string]any{"a": uint64(1)}
+			case 2:
+				n.Submods = map[string]any{"sub": map[any]any{uint64(265): []any{[]byte{9, 9}, "x"}}}
+			case 3:
+				n.Submods = map[string]any{"two": []any{map[any]any{int64(-75000): "p"}, map[any]any{uint64(1): uint64(1)}}}
+			}
+			if verr := n.Validate(); verr != nil {
+				t.Fatalf("VERIF-INFRA: %v", verr)
+			}
+			c = n
+			styleLabel = "rich-types"
+			if standalone {
+				// the same claims on a stand-alone claims type that the
+				// library's OWN codec modes handle by reflection
+				f := freeFormProfile{}.GetClaims().(*FreeFormClaims)
+				f.IssuedAt, f.Submods, f.Free = n.IssuedAt, n.Submods, n.Free
+				if verr := f.Validate(); verr != nil {
+					t.Fatalf("VERIF-INFRA: stand-alone claims do not validate: %v", verr)
+				}
+				c = f
+				styleLabel = "rich-types-standalone"
+			}
+			inner := decode
+			want0, _ := psatoken.EncodeClaimsToCBOR(c)
+			decode = func(b []byte) (psatoken.IClaims, error) {
+				d, err := inner(b)
+				if err == nil {
+					if fmt.Sprintf("%T", d) != fmt.Sprintf("%T", c) {
+						return nil, fmt.Errorf("decodes as %T", d)
+					}
+					if re, rerr := psatoken.EncodeClaimsToCBOR(d); rerr != nil || !bytes.Equal(re, want0) {
+						return nil, fmt.Errorf("the extension's own claims changed in the round trip (%v): %x then %x", rerr, want0, re)
+					}
+				}
+				return d, err
+			}
 		case "ext-without-components":
 			// a derived profile that does not allow software components (nil
 			// container, getter says "not in profile"): a VALID claims-set
@@ -769,6 +838,9 @@ func TestC09_RoundTrip(t *testing.T) {
 		}
 		if kind == "ext-without-components" {
 			cls = append(cls, "extension", "ext-without-components")
+		}
+		if kind == "ext-rich-types" {
+			cls = append(cls, "extension", "ext-rich-types")
 		}
 		if kind == "dup-profile-key" {
 			cls = append(cls, "dup-profile-key-decoded")
